@@ -898,7 +898,7 @@ theorem split_up : splitNameIndex ['.', '.'] = .ok (['.', '.'], .none) := by dec
 theorem intStr_nat (j : Nat) : intStr (j : Int) = natStr j := rfl
 
 /-- the `'..'` step: the `found` text, minus its last piece, is resolved from the root to the element
-`qq[j]`; the walk continues there -/
+`qq[j]`; the walk continues there, with the index put back on the found text (fix C06-b) -/
 theorem find_up_step (fuel : Nat) (root : Val) (entry rl : Bool) (p : Pos) (pv : Val) (found : Str) (rest up : List Str)
     (qq : Pos) (lc : Cls) (rs : List Val) (j : Nat) (rec : Val) (fnd' : Str)
     (hpar : getAt root p = some pv)
@@ -907,13 +907,13 @@ theorem find_up_step (fuel : Nat) (root : Val) (entry rl : Bool) (p : Pos) (pv :
       = .ok (root, { parent := .at qq, nameIdx := some (bracket (intStr (j : Int))), value := rec, found := fnd', notFound := Option.none }))
     (hqq : getAt root qq = some (.list lc rs)) (hj : j < rs.length) (hrest : rest ≠ []) :
     findD (fuel + 1) root [] false entry (['.', '.'] :: rest) (.at p) rl found
-      = findD fuel root [] false false rest (.at (qq ++ [Seg.idx j])) rl fnd' := by
+      = findD fuel root [] false false rest (.at (qq ++ [Seg.idx j])) rl (fnd' ++ bracket (intStr (j : Int))) := by
   have hr : rest.length ≥ 1 := by cases rest with | nil => exact absurd rfl hrest | cons _ _ => simp
   have hbne : (bracket (intStr (j : Int))).isEmpty = false := by simp [bracket]
   rw [findD]
   simp only [Bool.false_and, Bool.false_eq_true, if_false, valOf_at, hpar, split_up, List.isEmpty_cons,
     Bool.not_false, Idx.truthy, if_true, hup, hinner, hqq, hbne, split_bracket_intStr, List.isEmpty_nil,
-    Bool.not_true, n0eval_intStr, pyGetIdx, normIdx_nat hj, childRef, hr, Bool.or_true, decide_true]
+    Bool.not_true, n0eval_intStr, pyGetIdx, normIdx_nat hj, childRef, hr, Bool.or_true, decide_true, upFound]
 
 /-- the comparison made by the `text()` branch for the normalised operator `op` -/
 def condTest (op : Str) (v : CondVal) (kv : Val) : Bool :=
